@@ -22,6 +22,9 @@ def to_smt2(assertions, getvals):
         s.add(a)
     txt = s.to_smt2()
     txt = txt.replace('(check-sat)', '')
+    # z3-internal names for division by a non-zero numeral: same meaning as the standard operators there
+    for op in ('bvudiv', 'bvurem', 'bvsdiv', 'bvsrem', 'bvsmod'):
+        txt = txt.replace('(%s_i ' % op, '(%s ' % op)
     out = ['(set-logic ALL)', '(set-option :produce-models true)', txt, '(check-sat)']
     if getvals:
         out.append('(get-value (%s))' % ' '.join(getvals))
